@@ -46,6 +46,22 @@ _dispatch_verif_timeout(dispatch_time_t when)
 	return _dispatch_timeout(when);
 }
 
+/* _dispatch_timer_unote_compute_missed on a scratch timer */
+DV_EXPORT unsigned long
+_dispatch_verif_compute_missed(uint64_t *target, uint64_t *deadline,
+		uint64_t interval, uint64_t now, unsigned long prev)
+{
+	struct dispatch_timer_source_refs_s dt;
+	memset(&dt, 0, sizeof(dt));
+	dt.dt_timer.target = *target;
+	dt.dt_timer.deadline = *deadline;
+	dt.dt_timer.interval = interval;
+	prev = _dispatch_timer_unote_compute_missed(&dt, now, prev);
+	*target = dt.dt_timer.target;
+	*deadline = dt.dt_timer.deadline;
+	return prev;
+}
+
 /* read-only view of a queue's identity fields for the test harnesses */
 DV_EXPORT void
 _dispatch_verif_queue_peek(dispatch_queue_t dq, uint16_t *width,
